@@ -279,6 +279,11 @@ let oracle toks impl model =
            else if not (has "mem=T") then bad i s "the string is not a member of its own str.to_re language"
            else if not (has "ascii=T") then bad i s "Display printed a non-ASCII character"
            else if r <> mr then bad i s ("result differs from the verified model: " ^ mr)
+       | "replre" | "replreall" ->
+           (* the SMT-LIB value is unique (C10_replace_re_complete / C10_replace_re_all_complete) and the
+              model is proved to return it: any other answer violates the property *)
+           if r <> mr && mr <> "PANIC" then
+             bad i s ("result [" ^ r ^ "] is not the SMT-LIB value [" ^ mr ^ "] (leftmost, then shortest match)")
        | "same" -> if r <> "T T" then bad i s ("the same construction gave a different term: " ^ r)
        | "differ" -> if r <> "F F" then bad i s ("terms that must differ compare equal: " ^ r)
        | "closure" -> if r <> "T" then bad i s ("the yielded set is not closed under char_derivative: " ^ r)
